@@ -227,6 +227,8 @@ func init() {
 		More: []rt.Extra{
 			{Module: "MC_C02", Frac: frac(0.5, 1)}, {Module: "MC_C04", Frac: frac(0.05, 0.5)}, {Module: "MC_C08", Frac: frac(0.01, 0.1)},
 			{Module: "MC_C09", Frac: frac(0.3, 1)}, {Module: "MC_C11", Frac: frac(0.01, 0.1)},
+			// goJSONSchema extension objects (explicit identifiers that collide with derived or with each other's names)
+			{Module: "MC_C01", Keep: func(u *rt.Unit) bool { return u.Str("fam") == "ext" }},
 		}}
 }
 
